@@ -335,6 +335,16 @@ def slow_board_case(layer, helper, args, motor_state, prompt_raw, desc):
             return [(f"slow:{layer}.{helper}", f"{desc} against a board that answers after "
                      f"{(0, 1, 3)[stall]} empty read(s) sent {texts(raw)!r} (exception {exc!r}); "
                      f"against a prompt board it sent {texts(prompt_raw)!r}")]
+    # ... and so must the same call while the application logs at DEBUG level
+    with core.debug_logging():
+        if layer == "legacy":
+            raw, exc = sent_legacy(helper, args)
+        else:
+            raw, exc, _obj = sent_ebb3(helper, args, motor_state)
+    if exc is not None or raw != prompt_raw:
+        return [(f"debuglog:{layer}.{helper}", f"{desc} with logging switched to DEBUG put "
+                 f"{[bytes(r) for r in raw]!r} on the wire (exception {exc!r}); otherwise "
+                 f"{[bytes(r) for r in prompt_raw]!r}")]
     return []
 
 
